@@ -267,7 +267,7 @@ class Ctx:
             self.cov["transitions"] += st["generated"]
         return st, r.stdout
 
-    def tlaps_check(self, module="ApplierProofs.tla", timeout=1500, label=None):
+    def tlaps_check(self, module="ApplierProofs.tla", timeout=1500, label=None, needs=("Applier.tla",), abstract_ops=True):
         """TLAPS: machine-checked proofs about the specification itself (unbounded histories, any alphabet).
         The proof modules see Ops.tla with the operation alphabet as an uninterpreted CONSTANT (tlapm does
         not accept the RECURSIVE definition that builds the bounded alphabet; the theorems then hold for
@@ -275,15 +275,16 @@ class Ctx:
         d = os.path.join(self.work, "tlaps")
         shutil.rmtree(d, ignore_errors=True)
         os.makedirs(d)
-        for f in ("Applier.tla",):
+        for f in needs:
             shutil.copy(os.path.join(SPEC, f), d)
         shutil.copy(os.path.join(SPEC, "proofs", module), d)
-        ops = open(os.path.join(SPEC, "Ops.tla")).read()
-        ops, n1 = re.subn(r"RECURSIVE DevN\(_, _\)\nDevN\(S, n\) == .*?\n", "", ops)
-        ops, n2 = re.subn(r"Alphabet == DevN\(.*?\\cup WindowCube\n", "CONSTANT Alphabet   \\* proofs: ANY alphabet\n", ops, flags=re.S)
-        if n1 != 1 or n2 != 1:
-            raise Infra("cannot abstract the alphabet of Ops.tla for the proof system")
-        open(os.path.join(d, "Ops.tla"), "w").write(ops)
+        if abstract_ops:
+            ops = open(os.path.join(SPEC, "Ops.tla")).read()
+            ops, n1 = re.subn(r"RECURSIVE DevN\(_, _\)\nDevN\(S, n\) == .*?\n", "", ops)
+            ops, n2 = re.subn(r"Alphabet == DevN\(.*?\\cup WindowCube\n", "CONSTANT Alphabet   \\* proofs: ANY alphabet\n", ops, flags=re.S)
+            if n1 != 1 or n2 != 1:
+                raise Infra("cannot abstract the alphabet of Ops.tla for the proof system")
+            open(os.path.join(d, "Ops.tla"), "w").write(ops)
         t0 = time.time()
         r = sh(["timeout", str(timeout), "tlapm", "--threads", str(NCPU), module], cwd=d, stdout=subprocess.PIPE,
                stderr=subprocess.STDOUT, text=True)
